@@ -3,7 +3,7 @@
 //! Read-only accessors and a work counter used by the replay / audit programs of the
 //! verification framework. Nothing here changes the behaviour of the crate.
 
-use std::cell::Cell;
+use std::cell::{Cell, RefCell};
 
 use daggy::Dag;
 
@@ -11,6 +11,33 @@ use crate::{Edge, FnGraph, FnIdInner};
 
 thread_local! {
     static RANK_CALC_POPS: Cell<usize> = const { Cell::new(0) };
+    static EVENT_LOG: RefCell<Vec<HookEvent>> = const { RefCell::new(Vec::new()) };
+}
+
+/// One entry of the per-thread event log.
+#[derive(Clone, Copy, Debug, PartialEq, Eq)]
+pub enum HookEvent {
+    /// The scheduler side of a `fold_async*` / `for_each_concurrent*` style call took this function
+    /// out of the ready queue (the moment it is recorded in `fn_ids_processed`).
+    Dequeued(usize),
+    /// Recorded by the harness itself through [`event_log_push_user`].
+    User(u32, usize),
+}
+
+/// Called when the scheduler side dequeues a function id from the ready queue.
+#[cfg(feature = "async")]
+pub(crate) fn dequeued(fn_id: usize) {
+    EVENT_LOG.with(|l| l.borrow_mut().push(HookEvent::Dequeued(fn_id)));
+}
+
+/// Lets a harness interleave its own events with the crate's in the same per-thread log.
+pub fn event_log_push_user(tag: u32, value: usize) {
+    EVENT_LOG.with(|l| l.borrow_mut().push(HookEvent::User(tag, value)));
+}
+
+/// Takes (and clears) the event log of the current thread.
+pub fn event_log_take() -> Vec<HookEvent> {
+    EVENT_LOG.with(|l| std::mem::take(&mut *l.borrow_mut()))
 }
 
 /// Called once per work-queue pop in `RankCalc::calc`.
